@@ -486,6 +486,9 @@ func c14Alias(e *Env) {
 			}
 		case *ssa.MakeInterface:
 			walk(x.X, d+1)
+		case *ssa.BinOp:
+			walk(x.X, d+1)
+			walk(x.Y, d+1)
 		case *ssa.UnOp:
 			if fa, ok := x.X.(*ssa.FieldAddr); ok && fieldName(fa) == "counter" {
 				usesCounter = true
@@ -553,37 +556,36 @@ func c14Identifier(e *Env) {
 	} else {
 		r.Hold("R14.5", key+"#class", "every rune that is not replaced by _ is a letter or a digit", e.P.Pos(cls.Pos))
 	}
-	// format constant of the name
-	fd, pk := e.P.Decl(importsRel, "imports.Alias")
+	// the language of the stored name, computed from the expression that builds it
 	okFmt := false
-	if fd != nil {
-		ast.Inspect(fd.Body, func(n ast.Node) bool {
-			call, ok := n.(*ast.CallExpr)
-			if !ok || calleeName(load.Callee(pk.TypesInfo, call)) != "fmt.Sprintf" || len(call.Args) != 3 {
-				return true
-			}
-			f, ok := load.StringOf(pk.TypesInfo, call.Args[0])
-			if !ok {
-				return true
-			}
-			// instantiate the verbs with their languages and test inclusion in the identifier language
-			pat := rxQuote(f)
-			pat = strings.Replace(pat, "%s", `[0-9a-f]+`, 1)
-			pat = strings.Replace(pat, "%s", `[A-Za-z0-9_]*`, 1)
-			l, err := rx.Parse(pat, true)
-			if err != nil {
-				return true
-			}
-			if _, bad, _ := rx.NotIncluded(l, rx.MustParse(`[A-Za-z_][A-Za-z0-9_]*`, true)); !bad {
-				// first verb must be the hex counter
-				if c2, ok := ast.Unparen(call.Args[1]).(*ast.CallExpr); ok && calleeName(load.Callee(pk.TypesInfo, c2)) == "strconv.FormatInt" {
-					okFmt = true
+	detail := "the stored name was not found"
+	if fn := e.P.Func(importsRel, "imports.Alias"); fn != nil {
+		for _, blk := range fn.Blocks {
+			for _, ins := range blk.Instrs {
+				mu, isMU := ins.(*ssa.MapUpdate)
+				if !isMU {
+					continue
 				}
+				ctx := &strLangCtx{kept: "[A-Za-z0-9]", reads: map[string]bool{}, exact: true}
+				if bad {
+					ctx.kept = ""
+				}
+				pat := ctx.lang(mu.Value, 0)
+				l, err := rx.Parse(pat, true)
+				if err != nil {
+					detail = "language of the name not computable: " + err.Error()
+					continue
+				}
+				w, notIncl, _ := rx.NotIncluded(l, rx.MustParse(`[A-Za-z_][A-Za-z0-9_]*`, true))
+				detail = fmt.Sprintf("language of the name: %s", pat)
+				if notIncl {
+					detail += fmt.Sprintf("; not an identifier: %q", w)
+				}
+				okFmt = !notIncl && ctx.reads["counter"]
 			}
-			return true
-		})
+		}
 	}
-	r.Check(okFmt, "R14.5", key+"#format", "the name is formatted as a letter, the counter in hex, an underscore and the sanitised last segment: always an identifier")
+	r.Check(okFmt, "R14.5", key+"#format", "every name the table can hold is a Go identifier and contains the counter ("+detail+")")
 }
 
 // ---- R14.6 ----
